@@ -355,9 +355,11 @@ def gen_program_c17(rng, name, world, tier):
                          "comment": rng.choice([None, "written by the simulator", "QHA data 1 2 3"]), "expect_ok": True})
         elif r < 0.85 and paths:
             prog.append({"op": "io.read_energy", "path": rng.choice(paths), "abs": rng.random() < 0.5, "expect_ok": True})
-        else:
+        elif world["static"].get("cli_ok", True):
             prog.append({"op": "cli.fill", "system": world["static"]["system"], "store": "f%d" % len(prog), "flags": [],
                          "abs": rng.random() < 0.5, "expect_ok": True})
+        else:
+            prog.append({"op": "io.read_elast", "abs": rng.random() < 0.5, "expect_ok": True})
     return prog
 
 
@@ -500,6 +502,10 @@ def gen_extract_ops(rng, name, world, tier, prog, nmin=2, nmax=6):
         else:
             npts = rng.randint(1, 7)
             cols = rng.choice([["P", "T"], ["T", "P"], ["depth", "P", "T"], ["P", "T", "depth"]])
+            pname, tname = "P", "T"
+            if rng.random() < 0.25:     # the geotherm names its columns differently; the options name them (per the command's help text:
+                pname, tname = rng.choice([["pressure", "temperature"], ["P(GPa)", "T(K)"], ["p", "t"]])    # --t-col = pressure column, --p-col = temperature column)
+                cols = [{"P": pname, "T": tname}.get(c, c) for c in cols]
             pts = []
             on_nodes = rng.random() < 0.5
             for _k in range(npts):
@@ -511,10 +517,10 @@ def gen_extract_ops(rng, name, world, tier, prog, nmin=2, nmax=6):
                     t, p = round(t, 6), round(p, 6)
                 row = []
                 for cn in cols:
-                    row.append({"P": p, "T": t}.get(cn, round(rng.uniform(0, 2900), 3)))
+                    row.append({pname: p, tname: t}.get(cn, round(rng.uniform(0, 2900), 3)))
                 pts.append(row)
             gname = f"geotherm_{name.lower()}{len(prog)}_{len(ops)}.txt"
-            ops.append({"op": "cli.geotherm", "geotherm": gname, "columns": cols, "points": pts, "variables": variables,
+            ops.append({"op": "cli.geotherm", "geotherm": gname, "columns": cols, "pname": pname, "tname": tname, "points": pts, "variables": variables,
                         "hide_header": rng.random() < 0.15, "abs": rng.random() < 0.5})
     return ops
 
@@ -715,10 +721,10 @@ def gen_scenario(prop, seed, tier, faults_enabled=None, nclients=None, segments_
             kw["overshoot"] = prop in ("C14",) and rng.random() < 0.05
         if prop in ("C09", "C17"):
             kw["system"] = rng.choice(SYSTEM_NAMES)
-        kw["cli_spelling"] = True
+        kw["cli_spelling"] = not (prop == "C17" and rng.random() < 0.4)    # C17 also reads tables keyed c_11, cij11, C1122, ... (the fill COMMAND accepts cIJ/CIJ only)
         kw["full_output"] = prop == "C15" and rng.random() < 0.3
         w = W.gen_world(rng, tier, n, **kw)
-        w["static"]["cli_ok"] = True
+        w["static"]["cli_ok"] = kw["cli_spelling"]
         if prop == "C14" and rng.random() < 0.04:
             # a refused calculation as part of the process history: schema-invalid settings
             w["settings"]["elast"]["settings"]["mode_gamma"]["interpolator"] = "cubic-spline"
@@ -751,6 +757,10 @@ def gen_scenario(prop, seed, tier, faults_enabled=None, nclients=None, segments_
         for op in programs[n]:
             if rng.random() < 0.25:
                 op["tick"] = rng.choice([1, 1, 2, 3, 60, 3600, 86400, -1, -3600])    # negative: the clock is stepped back
+    for n in names:          # geotherm files get unique names per client
+        for k, op in enumerate(programs[n]):
+            if op["op"] == "cli.geotherm":
+                op["geotherm"] = f"geotherm_{n.lower()}{k}.txt"
     extra = []
     for n in names:
         w = worlds[n]
